@@ -1,3 +1,76 @@
-From BiomV Require Import Proofs.ErrProofs.
-Theorem placeholder : True. Proof. exact I. Qed.
-Print Assumptions placeholder.
+(* C20: the error-handling profile is honoured and scoped.  Statements only; proofs in
+   Proofs/ErrProofs.v, over the model of biom/err.py in Model/Err.v. *)
+From Coq Require Import List String Bool ZArith.
+From BiomV Require Import Base.Tree Base.ListUtil Base.Dict Model.Err Proofs.ErrProofs.
+Import ListNotations.
+Open Scope string_scope. Open Scope list_scope.
+
+(* For each of the seven registered kinds: if an input triggers exactly that kind, errcheck
+   produces exactly the configured reaction (raise / warn / print / call with the registered
+   callback / nothing for ignore), whatever the rest of the profile says. *)
+Theorem reaction_honoured : forall p v k,
+  In k kinds -> only_trigger v k -> errcheck p v [] = Ok (expected_event p k).
+Proof. exact reaction_honoured_lemma. Qed.
+Print Assumptions reaction_honoured.
+
+Theorem reaction_table : forall p k r,
+  dget (st p) k = Some r ->
+  expected_event p k =
+    if String.eqb r "raise" then EvRaise k else if String.eqb r "warn" then EvWarn k
+    else if String.eqb r "print" then EvPrint k
+    else if String.eqb r "call" then EvCall k (match dget (calls p) k with Some c => c | None => 0%Z end)
+    else EvNone.
+Proof. exact expected_event_table. Qed.
+Print Assumptions reaction_table.
+
+(* Unknown kinds or reactions are refused without changing the profile. *)
+Theorem seterr_atomic : forall s kw s' e, seterr s kw = (s', Raise e) -> s' = s.
+Proof. exact seterr_atomic_lemma. Qed.
+Print Assumptions seterr_atomic.
+
+Theorem seterr_refuses_unknown : forall s kw,
+  dmem kw "all" = false ->
+  (exists k v, In (k, v) kw /\ (dmem s k = false \/ smem v valid_states = false)) ->
+  exists e, seterr s kw = (s, Raise e).
+Proof. exact seterr_refuses. Qed.
+Print Assumptions seterr_refuses_unknown.
+
+(* A scoped override is in force within its block ... *)
+Theorem errstate_override_in_force : forall s kw s1 old k v,
+  wf_state s -> errstate_enter s kw = (s1, Ok old) -> dmem kw "all" = false ->
+  NoDup (dkeys kw) -> In (k, v) kw -> dget s1 k = Some v.
+Proof. exact errstate_enter_applies. Qed.
+Print Assumptions errstate_override_in_force.
+
+(* ... and the previous profile is restored on exit: for EVERY block body (any nesting depth,
+   any seterr / seterrcall / errcheck inside), whether the block completes normally (exc =
+   false) or raises (exc = true), and also when entering is refused. *)
+Theorem errstate_scoped : forall kw body exc p,
+  wf_state (st p) -> st (fst (exec p (IBlock kw body exc))) = st p.
+Proof. exact errstate_scoped_lemma. Qed.
+Print Assumptions errstate_scoped.
+
+(* the hypothesis of errstate_scoped holds in every state a program can reach *)
+Theorem reachable_profiles_wf : forall prog, wf_state (st (fst (exec_list default_profile prog))).
+Proof. exact reachable_wf. Qed.
+Print Assumptions reachable_profiles_wf.
+
+(* distinct ids never count as duplicates, whatever the matrix size (kinds are independent) *)
+Theorem duplicate_tests_independent_of_size : forall v,
+  (NoDup (v_oids v) -> test_obsdup v = false) /\ (NoDup (v_sids v) -> test_sampdup v = false).
+Proof. exact dup_tests_independent. Qed.
+Print Assumptions duplicate_tests_independent_of_size.
+
+(* non-vacuity: a view with three distinct ids for two rows triggers obssize and nothing else;
+   a nested block left by an exception after inner seterr calls really changes and restores *)
+Definition view_obssize : view :=
+  {| v_empty := false; v_rows := 2; v_cols := 1; v_oids := [1;2;3]%Z; v_sids := [7]%Z; v_omd := None; v_smd := None |}.
+Example only_trigger_obssize : only_trigger view_obssize "obssize".
+Proof. vm_compute. reflexivity. Qed.
+Example block_changes_then_restores :
+  let prog := [IBlock [("obsdup","ignore")] [ISeterr [("empty","raise")]; IBlock [("all","warn")] [] true] true] in
+  st (fst (exec_list default_profile prog)) = default_state /\
+  exists o, In o (snd (exec_list default_profile prog)) /\
+            o = OState [("empty","warn");("obssize","warn");("sampsize","warn");("obsdup","warn");
+                        ("sampdup","warn");("obsmdsize","warn");("sampmdsize","warn")] (calls default_profile).
+Proof. split; [vm_compute; reflexivity|]. eexists. split; [|reflexivity]. vm_compute. tauto. Qed.
